@@ -10,8 +10,8 @@ git -C /repo archive HEAD | tar -x -C "$D"
 # include uncommitted working tree state of /repo too
 (cd /repo && git diff HEAD) | (cd "$D" && patch -p1 -s 2>/dev/null || true)
 case "$PATCH" in
-  -R:*) git -C /repo show "${PATCH#-R:}" | (cd "$D" && patch -R -p1 -s) ;;
-  *) (cd "$D" && patch -p1 -s < "$PATCH") ;;
+  -R:*) git -C /repo show "${PATCH#-R:}" | (cd "$D" && patch -R -p1 -s) || { echo "PATCH-FAILED $PATCH"; exit 3; } ;;
+  *) (cd "$D" && patch -p1 -s < "$PATCH") || { echo "PATCH-FAILED $PATCH"; exit 3; } ;;
 esac
 cd "$(dirname "$0")/.."
 set +e
